@@ -9,6 +9,7 @@ import Winter.Model.Transcript
 import WinterProofs.Lemmas.C04
 import WinterProofs.Lemmas.C04Run
 import WinterProofs.Lemmas.C04Ctx
+import WinterProofs.Lemmas.C04Gen
 
 namespace C04
 open Model.Transcript C04L
@@ -501,5 +502,20 @@ example : verifierScript cfg10 =
     [.new [.context, .pubInputs], .reseed .mainTraceRoot, .draw .compCoeffs 3, .reseed .constraintRoot,
      .draw .oodPoint 1, .reseed .oodTraceFrameHash, .reseed .oodEvaluationsHash, .draw .deepCoeffs 2,
      .reseed .remainderCommitment, .draw (.friAlpha 0) 1, .checkPow, .reseedWithNonce, .drawInts 2 16] := by decide
+
+-- =================================================================== tie T: the scripts extracted from the sources
+/-- ★ both scripts the theorems of this file are about ARE the sequences of public-coin operations extracted,
+    syntactically and in source order, from verifier/src/lib.rs `perform_verification` and from
+    prover/src/lib.rs `Prover::generate_proof` (+ its commit helpers and the `ProverChannel` methods of
+    prover/src/channel.rs) on this run (Winter/Gen/TranscriptScript.lean), under the leaf meanings of
+    WinterProofs/Lemmas/C04Gen.lean, for every configuration: a reordering of two coin operations, a call moved
+    into or out of the multi-segment / Lagrange branches, a dropped or duplicated call in those functions breaks
+    this theorem -/
+theorem scripts_eq_extracted (cfg : Cfg) :
+    (C04G.interp (C04G.vLeaf cfg) (C04G.condOf cfg) 64 Gen.TranscriptScript.perform_verification).map
+        (fun ops => CoinOp.new [.context, .pubInputs] :: ops) = some (verifierScript cfg) ∧
+    C04G.interp (C04G.pLeaf cfg) (C04G.condOf cfg) 64 Gen.TranscriptScript.generate_proof
+      = some (proverScript cfg) :=
+  ⟨C04G.verifier_script_eq_extracted cfg, C04G.prover_script_eq_extracted cfg⟩
 
 end C04
